@@ -1,5 +1,6 @@
 import VC2.Gen.Dispatch
 import VC2.Model.BitIODriver
+import VC2.Model.WaveletDriver
 open VC2 VC2.Gen
 
 def parseInts (ws : List String) : Option (List Int) :=
@@ -24,6 +25,7 @@ def step (line : String) : String :=
   | "rd" :: rest => VC2.Model.BitIO.handleIO "rd" rest
   | "dd" :: rest => VC2.Model.BitIO.handleIO "dd" rest
   | "wr" :: rest => VC2.Model.BitIO.handleIO "wr" rest
+  | "wt" :: rest => VC2.Model.Wavelet.handleWt rest
   | _ => "bad-op"
 
 partial def loop (h : IO.FS.Stream) (out : IO.FS.Stream) : IO Unit := do
